@@ -243,6 +243,13 @@ namespace gtry::hlim {
 
 }
 
+#ifdef GATERY_VERIF
+namespace gtry::hlim {
+	/// Verification hook (only with -DGATERY_VERIF): invoked at every pass boundary of the post processors.
+	extern std::function<void(Circuit&, const char*)> g_verifPassHook;
+}
+#endif
+
 extern template class std::unique_ptr<gtry::hlim::BaseNode>;
 extern template class std::unique_ptr<gtry::hlim::Clock>;
 extern template class std::unique_ptr<gtry::hlim::SignalGroup>;
